@@ -1,11 +1,10 @@
 #!/usr/bin/env python3
 """BOUNDED stand-in (not a proof) for the order half of C09 (and C01 / C03: comparisons, between, ranges, unary tests), which also stands in
 when a rewritten body of the comparison builders leaves the extractor's reach: over an alphabet of numbers (equal values with different
-scale), strings (empty, prefix pairs, non-ASCII), dates, both duration kinds, null, a boolean and a list, every ordered pair under
+scale), strings (empty, prefix pairs, non-ASCII), dates, times and dates and times (equal instants under different offsets, a microsecond apart), both duration kinds, null, a boolean and a list, every ordered pair under
 < <= > >= and every triple of one kind under  x between a and b,  x in [a..b] (a..b) [a..b) (a..b],  x in (< a) (<= a) (> a) (>= a),  compared
 with the definitions written out here: values of one ordered kind compare by their order, between is a <= x and x <= b (also for reversed
-bounds: false), an open end is the strict comparison, every other pair is null (the operators < <= > >= are null for durations too in this
-implementation: not compared). Negative number LITERALS are left out: as a range end or a unary test operand they are a recorded known
+bounds: false), an open end is the strict comparison, every other pair is null. Negative number LITERALS are left out: as a range end or a unary test operand they are a recorded known
 finding (the grammar has no signed numeric literal).
 prints `orddiff cases=N failures=M`; exit 0 / 2."""
 import datetime
@@ -25,7 +24,10 @@ DATES = [('date("2020-01-02")', datetime.date(2020, 1, 2)), ('date("2020-01-03")
 YM = [('duration("P1Y")', 12), ('duration("P12M")', 12), ('duration("P1Y1M")', 13), ('duration("-P1M")', -1)]
 DT = [('duration("P1D")', 86400), ('duration("PT24H")', 86400), ('duration("PT1S")', 1), ('duration("-PT1S")', -1)]
 OTHER = [('null', None), ('true', True), ('[1]', [1])]
-KINDS = {'n': NUMS, 's': STRS, 'd': DATES, 'ym': YM, 'dt': DT}
+TIMES = [('time("10:00:00Z")', Fraction(36000)), ('time("11:00:00+01:00")', Fraction(36000)), ('time("10:00:01Z")', Fraction(36001)), ('time("09:59:59.5Z")', Fraction(71999, 2))]
+DTM = [('date and time("2020-01-02T10:00:00Z")', Fraction(0)), ('date and time("2020-01-02T11:00:00+01:00")', Fraction(0)), ('date and time("2020-01-02T10:00:00.000001Z")', Fraction(1, 1000000)),
+       ('date and time("2020-01-01T23:00:00-05:00")', Fraction(-21600))]
+KINDS = {'n': NUMS, 's': STRS, 'd': DATES, 'ym': YM, 'dt': DT, 't': TIMES, 'dtm': DTM}
 
 
 def b(v):
@@ -35,12 +37,10 @@ def b(v):
 def cases():
     out = []
     allv = [(t, k, v) for (k, vs) in KINDS.items() for (t, v) in vs] + [(t, 'o', v) for (t, v) in OTHER]
-    # the four operators: ordered kinds by their order, everything else null (durations: not compared)
+    # the four operators: values of one kind by their order (times and dates and times by their instant, durations by their length), everything else null
     for (ta, ka, va) in allv:
         for (tb, kb, vb) in allv:
-            if ka in ('ym', 'dt') and ka == kb:
-                continue
-            same = ka == kb and ka in ('n', 's', 'd')
+            same = ka == kb and ka != 'o'
             for (op, f) in (('<', lambda x, y: x < y), ('<=', lambda x, y: x <= y), ('>', lambda x, y: x > y), ('>=', lambda x, y: x >= y)):
                 out.append(('%s %s %s' % (ta, op, tb), b(f(va, vb) if same else None)))
     # between, ranges and unary tests within one kind (durations included), plus a few mixed-kind triples (null)
